@@ -192,7 +192,7 @@ def run_unit(unit, work, tier='quick'):
         all_loops = loops_in(gen)
         res['loops'] = len(all_loops)
         loops = dict(unit.get('loops', {}))
-        if unit.get('frame_only'):
+        if unit.get('frame_only') or unit.get('auto_loops'):
             # frame-only unit: every loop gets the trivially true invariant (DFCC then havocs everything the loop
             # may write and checks one arbitrary iteration: a sound over-approximation for "no write outside the frame")
             for l_ in all_loops:
@@ -223,7 +223,7 @@ def run_unit(unit, work, tier='quick'):
             if len(ms) != 1:
                 raise Undecided('ghost anchor %r matches %d times in the generated code' % (pat, len(ms)))
             gen2 = gen2[:ms[0].start()] + ghost + '\n' + gen2[ms[0].start():]
-        if unit.get('frame_only'):
+        if unit.get('frame_only') or unit.get('auto_stubs'):
             # callees that are not translated (stubs: virtual model functions, large geometry routines) get a body that
             # may raise the exception flag, returns an arbitrary value and writes nothing else - the assumed frame of
             # every callee, listed in the evidence.  (A call to a body-less function would cut the path under DFCC.)
